@@ -312,6 +312,7 @@ type State struct {
 	env   map[types.Object]*Value
 	heap  map[string]string // component -> current term
 	pc    []string
+	pcG   []bool // parallel to pc: entry is a branch guard
 	alloc string // current allocation map term (Array Int Bool)
 	dead  bool
 	ghost map[string]string // named ghost scalars
@@ -344,6 +345,7 @@ func (s *State) clone() *State {
 		n.ghost[k] = v
 	}
 	n.pc = append([]string(nil), s.pc...)
+	n.pcG = append([]bool(nil), s.pcG...)
 	if s.writes != nil {
 		n.writes = make(map[string][]string, len(s.writes))
 		for k, v := range s.writes {
@@ -358,6 +360,17 @@ func (s *State) assume(t string) {
 		return
 	}
 	s.pc = append(s.pc, t)
+	s.pcG = append(s.pcG, false)
+}
+
+// assumeGuard records a branch condition (as opposed to a fact learned on the branch); when paths are merged
+// the guards select the branch and the facts become implications guarded by it.
+func (s *State) assumeGuard(t string) {
+	if t == "" {
+		return
+	}
+	s.pc = append(s.pc, t)
+	s.pcG = append(s.pcG, true)
 }
 
 func sortedKeys[V any](m map[string]V) []string {
